@@ -107,15 +107,25 @@ class KeyRef(C.Node):
         return self.k.describe()
 
 
+def _keytext(p):
+    """readable, unique rendering of a path element (the key's own text / number, not just its type)"""
+    if isinstance(p, C.Node):
+        k = p.k if isinstance(p, KeyRef) else p
+        if isinstance(k, C.Bytes) and all(isinstance(b, int) for b in k.content):
+            return bytes(k.content).decode("latin1")
+        return k.describe()
+    return str(p)
+
+
 def pdesc(path):
-    return "/".join(p.describe() if isinstance(p, C.Node) else str(p) for p in path) or "<top>"
+    return "/".join(_keytext(p) for p in path) or "<top>"
 
 
 def pname(path):
     out = []
     for p in path:
-        d = p.describe() if isinstance(p, C.Node) else str(p)
-        out.append("".join(ch if ch.isalnum() else "_" for ch in d))
+        d = _keytext(p)
+        out.append("".join(ch if ch.isalnum() else "_" for ch in d.replace("-", "m")))
     return "_".join(out) or "top"
 
 
